@@ -240,8 +240,9 @@ class Gen:
         for _ in range(rng.randint(0, 3)):
             n = self.nm.new("S_")
             extra = [s for s in local_structs + imported_structs if depth_of(s) < 3]
-            if self.allow_known and imported_msgs and rng.random() < 0.3:
-                extra = extra + [rng.choice(imported_msgs)]
+            usable_msgs = [m for m in imported_msgs if D.defs[m]["kind"] == "message" and depth_of(m) < 3]
+            if self.allow_known and usable_msgs and rng.random() < 0.3:
+                extra = extra + [rng.choice(usable_msgs)]
             if extra and rng.random() < 0.25 and not any(D.defs[e]["kind"] == "message" for e in extra[-1:]):
                 src = rng.choice([e for e in extra if D.defs[e]["kind"] == "struct"] or extra)
                 D.defs[n] = {"kind": "struct", "id": None, "fields": D.defs[src]["fields"] if not D.defs[src].get("copy_of") else D.defs[D.defs[src]["copy_of"]]["fields"],
